@@ -21,7 +21,7 @@ FUNCS = ["MessageManager.dispatch_message/_deduplicate_message/_store_response_f
 EL = 208000
 
 
-def mk_dups(con, ncopies, sym_h, k, pairs=None, gaps=None, fault_allowed=True):
+def mk_dups(con, ncopies, sym_h, k, pairs=None, gaps=None, fault_allowed=True, mc=False):
     def make(reach):
         import asyncio
         from vf import stack
@@ -89,7 +89,8 @@ def mk_dups(con, ncopies, sym_h, k, pairs=None, gaps=None, fault_allowed=True):
                     t_first = first.get(si)
                     prev = [d for (d, a, tm) in S.tr.sent if a[:2] == src[:2] and (d[0] >> 4) & 3 == 2 and d[2:4] == wire[2:4]
                             and t_first is not None and tm >= t_first]
-                    S.deliver(wire, src)
+                    # mc: the copies were sent to a multicast group this server has joined (same sender endpoint, same ID)
+                    S.deliver(wire, src, multicast=mc)
                     new = [(d, a) for (d, a, tm) in S.tr.sent[n0:]]
                     assert all(a[:2] == src[:2] for (d, a) in new)
                     at_edge = t_first is not None and t - t_first == EL
@@ -121,6 +122,16 @@ def mk_dups(con, ncopies, sym_h, k, pairs=None, gaps=None, fault_allowed=True):
                 ack_separate()
                 loop.drain()
                 assert res.calls == expected_calls, "handler invoked once per (endpoint, message ID) and lifetime"
+                # the two directions number their messages independently: a request carrying the ID of a message this server
+                # itself sent to that endpoint earlier (separate / non-confirmable response) was never received -> it is new
+                own = [Message.decode(d) for (d, a, tm) in S.tr.sent if a[:2] == stack.R0[:2] and (d[0] >> 4) & 3 in (0, 1)]
+                if own:
+                    fresh = Message(code=GET, uri_path=["e"], _mtype=CON if con else NON, _mid=own[-1].mid, _token=b"\x09").encode()
+                    S.deliver(fresh, stack.R0)
+                    assert len(res.calls) == len(expected_calls) + 1, "request with a never-received (endpoint, ID) treated as a duplicate"
+                    loop.advance(3 * EL)
+                    ack_separate()
+                    loop.drain()
                 assert loop.exceptions == []
             assert not reach, "reach"
         return h
@@ -145,12 +156,23 @@ def obligations(tier):
             variants.append((1, True, [pr], [0, 100, EL], "-symh-src%d" % pi))
         for (k, sym_h, pairs, gaps, suffix) in variants:
             fa = not (k == 1 and suffix not in ("-src0",))
-            obs.append(Obligation("duplicates-%s-%s%s" % ("con" if con else "non", KN[k], suffix), mk_dups(con, n, sym_h, k, pairs, gaps, fa),
+            mca = False
+            obs.append(Obligation("duplicates-%s-%s%s" % ("con" if con else "non", KN[k], suffix), mk_dups(con, n, sym_h, k, pairs, gaps, fa, mca),
                                   280 if q else 1500, functions=FUNCS,
                                   symbolic={"d1 (arrival of 2nd copy)": "[0, 3*EXCHANGE_LIFETIME]",
                                             "handler completion instant": "[101, 2*EL]" if sym_h else "300 (concrete)",
                                             "gaps to later copies": "index over 0,99,100,101,EL (CON, slow) / 0,50,EL", "sources of the copies": "index over 5 pairs of 3 endpoints",
-                                            "transport error reported for the first endpoint before the 2nd copy": "bool" if fa else "no"},
+                                            "transport error reported for the first endpoint before the 2nd copy": "bool" if fa else "no",
+                                            "copies arrive on a multicast address": "yes" if mca else "no",
+                                            "afterwards": "a new request carrying the ID of the server's own last NON/CON message to that endpoint"},
                                   concrete={"type": "CON" if con else "NON", "copies": 1 + n, "handler": KN[k]},
                                   stubs=["SimLoop", "FakeDatagramTransport", "integer tuning", "random stubs"]))
+    # non-confirmable requests sent to a multicast group the server has joined (confirmable ones: C10), copies from the same sender
+    for k in (0, 1, 2):
+        obs.append(Obligation("duplicates-non-%s-multicast" % KN[k], mk_dups(False, n, False, k, [(0, 0), (0, 1)], None, False, True),
+                              280 if q else 1500, functions=FUNCS,
+                              symbolic={"d1 (arrival of 2nd copy)": "[0, 3*EXCHANGE_LIFETIME]", "gaps to later copies": "index over 0,50,EL",
+                                        "source of the 3rd copy": "same endpoint / other port"},
+                              concrete={"type": "NON", "copies": 1 + n, "handler": KN[k], "destination of all copies": "multicast address (IPV6_PKTINFO)"},
+                              stubs=["SimLoop", "FakeDatagramTransport", "integer tuning", "random stubs"]))
     return obs
